@@ -7,7 +7,13 @@
 import os, subprocess, sys, json, time
 ROOT = os.path.dirname(os.path.dirname(os.path.abspath(__file__)))
 
+def _term(signum, frame):
+    raise KeyboardInterrupt()
+
+
 def main():
+    import signal
+    signal.signal(signal.SIGTERM, _term)
     patch = os.path.abspath(sys.argv[1])
     props = sys.argv[2:] or ["C%02d" % i for i in range(1, 21)]
     st = subprocess.run(["git", "-C", "/repo", "status", "--porcelain"], capture_output=True, text=True).stdout.strip()
@@ -36,7 +42,10 @@ def main():
             nf = " (no-failing-input-found)" if any("no-failing-input-found" in l for l in lines) else ""
             print("%s %s%s %.0fs %s" % (p, verdict, nf, time.time() - t0, info), flush=True)
             results[p] = verdict + nf
+    except KeyboardInterrupt:
+        print("interrupted")
     finally:
+        subprocess.run("ps -eo pid,args | grep -E 'orchestrate/core.py|harness/target/release/' | grep -v grep | awk '{print $1}' | xargs -r kill", shell=True)
         subprocess.run(["git", "-C", "/repo", "checkout", "--", "."])
         subprocess.run(["git", "-C", "/repo", "clean", "-fdq", "--", "cadence", "cadence-macros"])
     return 0
